@@ -103,7 +103,16 @@ Fixpoint sess_spec_ok (sp : list (string * db)) (cur : option string) (evs : lis
                       end
           | None => false
           end
-      | Some c, SOErr (SEStmt _) => sess_spec_ok sp cur er orr
+      | Some c, SOErr (SEStmt _) =>
+          (* a refused statement is one the specification refuses too (a valid INSERT answered with
+             "record already exists" is not acceptable), and it changes nothing *)
+          match sp_get c sp with
+          | Some d => match spec_exec d st with
+                      | SpecErr _ => sess_spec_ok sp cur er orr
+                      | SpecOk _ => false
+                      end
+          | None => false
+          end
       | _, _ => false
       end
   | ShEv SvTick :: er, ShDone true :: orr => sess_spec_ok sp cur er orr
